@@ -6,7 +6,8 @@ cd "$(dirname "$0")"
 export PYTHONHASHSEED=0
 PY=/venv/bin/python
 $PY -c "import hypothesis" 2>/dev/null || /venv/bin/pip install -q --no-index --find-links /opt/veriftools/wheels hypothesis || true
-timeout 600 $PY sim/build.py plain asan
+timeout 600 $PY sim/build.py plain asanshim
+timeout 300 $PY -c "import sys; sys.path.insert(0, \".\"); from sim import build; build.build_helper(\"_verifsig\")"
 timeout 900 $PY sim/selftest.py model
 if [ "${VERIF_SKIP_DETERMINISM:-0}" != "1" ]; then
   timeout 1800 $PY sim/selftest.py determinism
